@@ -498,6 +498,7 @@ pub struct DumpOutcome {
 
 /// one real dump of `t`, everything recorded
 pub fn dump_case(prop: &str, id: &str, t: &Target, cfg: &DumpCfg, dest: &mut RecDest, extra_fields: &str) -> DumpOutcome {
+    crate::rng::progress(id);   // a request that does not come back ends the run (`HANG <id>`, see main.rs)
     t.wait_parked();
     let n = LIVE_COUNTER.fetch_add(1, Ordering::SeqCst);
     let dir = run_dir(prop);
